@@ -351,7 +351,11 @@ def sweep(ctx: Ctx):
             with warnings.catch_warnings():
                 warnings.simplefilter("ignore")
                 with np.errstate(all="ignore"):
-                    r1, r2 = tf.transform(x1.copy()), tf.transform(x2.copy())
+                    try:
+                        r1, r2 = tf.transform(x1.copy()), tf.transform(x2.copy())
+                    except Exception as e:  # noqa: BLE001
+                        first.setdefault((cname, "reuse"), (p, f"transform of the admissible 3-point array {x1.tolist()}", f"{type(e).__name__}: {str(e)[:60]}", "its values"))
+                        continue
                     for m in meths:
                         dom = m in ("transform", "deriv", "deriv2", "deriv3")
                         if wrap:
@@ -384,7 +388,11 @@ def sweep(ctx: Ctx):
             with warnings.catch_warnings():
                 warnings.simplefilter("ignore")
                 with np.errstate(all="ignore"):
-                    r1 = make_tf(cname, p, True).transform(x1.copy())
+                    try:
+                        r1 = make_tf(cname, p, True).transform(x1.copy())
+                    except Exception as e:  # noqa: BLE001
+                        first.setdefault((cname, "reuse"), (p, f"transform of the admissible 3-point array {x1.tolist()}", f"{type(e).__name__}: {str(e)[:60]}", "its values"))
+                        continue
                     for grp in (("transform", "deriv", "deriv2", "deriv3"), ("inverse", "deriv_inverse", "deriv2_inverse", "deriv3_inverse")):
                         a = x1 if (grp[0] == "transform") != wrap else r1
                         for m1 in grp:
@@ -401,6 +409,26 @@ def sweep(ctx: Ctx):
                                 if not np.allclose(got, fresh, rtol=1e-12, atol=0, equal_nan=True):
                                     first.setdefault((cname, "reuse"), (p, f"{'InverseRTransform.' if wrap else ''}{m1}(a) then {m2}(a) on the same array a = {a.tolist()} (a is now {buf.tolist()})",
                                                                         float(got[0]), float(fresh[0])))
+    # admissibility boundary of the size-dependent guard of HyperbolicRTransform: every N-point array with b*(N-1) < 1 is admissible
+    for N in (2, 3, 5, 10, 33):
+        for b_ in (1.0 / (N - 0.5), 0.999 / (N - 1), 1.0 / N):
+            pH = dict(a=1.5, b=b_)
+            xH = np.linspace(0.0, 0.9 / b_, N)
+            for wrap in (False, True):
+                try:
+                    tfh = make_tf("HyperbolicRTransform", pH, True)
+                    rH = tfh.transform(xH.copy())
+                    back = (RT.InverseRTransform(tfh).transform(rH.copy()) if wrap else tfh.inverse(rH.copy()))
+                    for m in ("deriv", "deriv2", "deriv3"):
+                        getattr(tfh, m)(xH.copy())
+                    for m in ("deriv_inverse", "deriv2_inverse", "deriv3_inverse"):
+                        getattr(tfh, m)(rH.copy())
+                    npts += 1
+                    if not np.allclose(back, xH, rtol=1e-9, atol=1e-12):
+                        first.setdefault(("HyperbolicRTransform", "inv_tf"), (pH, f"inverse(transform(x)) on the {N}-point array linspace(0, 0.9/b, {N})", float(back[-1]), float(xH[-1])))
+                except Exception as e:  # noqa: BLE001
+                    first.setdefault(("HyperbolicRTransform", "extreme"), (pH, f"the admissible {N}-point array linspace(0, 0.9/b, {N}) (b*(N-1) = {b_ * (N - 1):.4f} < 1)",
+                                                                          f"{type(e).__name__}: {str(e)[:50]}", "values"))
     # infinity trimming replaces ONLY infinities (finite values, however large, are left alone), scalars and arrays
     tfc = make_tf("BeckeRTransform", dict(rmin=0.0, R=1.0), True)
     arr = np.array([-np.inf, -1e300, -1e17, -1.0, 0.0, 2.5, 1e16, 3e16, 1e200, np.inf])
